@@ -283,7 +283,7 @@ def run(ctx):
             color_case(pre + body, "tok")
     for inner in strings_upto(RGB_IN, 5 if quick else 7):
         color_case("rgb(" + inner + ")", "rgb")
-    names = ["red", "RED", " Red ", "bright_blue", "grey37", "default", "DEFAULT\n", "blacK", "defaulŤ", "ṙed", "İ", "color(0)", "color(15)", "color(16)", "color(255)", "color(256)", "color(999)", "color(0255)", "color(٣)", "color()", "color(1) ", "#000000", "#FFFFFF", "#12345", "#1234567", "#12345g", "#١٢٣٤٥٦", "rgb(0,0,0)", "rgb(255,255,255)", "rgb(256,0,0)", "rgb(0,0,256)", "rgb(1,2)", "rgb(1,2,3,4)", "rgb(1,,2)", "rgb(1 2,3,4)", "rgb(,,)", "rgb( 1 , 2 , 3 )", "rgb(\x1c1,2,3)", "rgb(　1　,2,3)", "rgb(٣,３,\U0001d7d1)", "rgb(²,1,1)", "rgb(1,2,3)\n", "rgb(1,2,3", "RGB(1,2,3)", "rgb(001,002,003)", "rgb(1_0,2,3)", "rgb(+1,2,3)", "rgb(-1,2,3)", "rgb(1.0,2,3)"]
+    names = ["red", "RED", " Red ", "bright_blue", "grey37", "default", "DEFAULT\n", "blacK", "defaulŤ", "ṙed", "İ", "color(0)", "color(15)", "color(16)", "color(255)", "color(256)", "color(999)", "color(0255)", "color(٣)", "color()", "color(1) ", "#000000", "#FFFFFF", "#123456", "#abCDef", "#0a1b2c", "#12345", "#1234567", "#12345g", "#١٢٣٤٥٦", "rgb(0,0,0)", "rgb(255,255,255)", "rgb(1,2,3)", "rgb(254,255,0)", "rgb(0,255,254)", "rgb(255,0,256)", "rgb(256,0,0)", "rgb(0,0,256)", "rgb(1,2)", "rgb(1,2,3,4)", "rgb(1,,2)", "rgb(1 2,3,4)", "rgb(,,)", "rgb( 1 , 2 , 3 )", "rgb(\x1c1,2,3)", "rgb(　1　,2,3)", "rgb(٣,３,\U0001d7d1)", "rgb(²,1,1)", "rgb(1,2,3)\n", "rgb(1,2,3", "RGB(1,2,3)", "rgb(001,002,003)", "rgb(1_0,2,3)", "rgb(+1,2,3)", "rgb(-1,2,3)", "rgb(1.0,2,3)"]
     names += ["rgb(%s,1,1)" % ("1" * n) for n in (4299, 4300, 4301)] + ["rgb(%s,1,1)" % ("0" * 4301), "rgb(1,1,%s)" % (" " * 4400 + "1")]
     for s in names:
         color_case(s, "listed")
@@ -414,13 +414,21 @@ def run(ctx):
     extra += ["\t" * 3 + "x", "a\tb\tc" * 5, "あ" * 50, "x" * 500, "\n" * 5, " " * 50, ":smiley: :x: ::", "\x1b[1mbold\x1b[0m", "1 2.5 0x1f True None 'str' <tag attr=1> http://x.y/z?q=1 (1, 2) {a: b} 2001:db8::1 ab:cd:ef:01:23:45 /usr/bin/x.py"]
     stride = max(1, len(seen_strings) // (6000 if quick else 150000))
     todo = [s for s in seen_strings[::stride] if surrogate_free(s)] + [s for s in extra if surrogate_free(s)]
+    from lib_c14 import watchdog
+
+    def guarded(f):
+        def g():
+            with watchdog(20):
+                return f()
+        return g
+
     for i, s in enumerate(todo):
         cls, t = observe(lambda: Text(s))
         ctx.check(cls is None and len(t) == len(t.plain), "Text()", s, f"Text({s!r}) raised {cls} or has len != len(plain)")
         # interleave widths and highlighter settings on shared consoles
         for w, hl in ((widths[i % len(widths)], True), (widths[(i // 3) % len(widths)], False)):
             con = cons[(w, hl)]
-            cls, _ = observe(lambda: con.print(s, markup=False))
+            cls, _ = observe(guarded(lambda: con.print(s, markup=False)))
             ctx.note("print_plain:w%d" % w)
             ctx.check(cls is None, "Console.print(markup=False)", (s, w, hl), f"Console(width={w}, highlight={hl}).print({s!r}, markup=False) raised {cls} (documented: never raises)")
             if i % 50 == 0:
@@ -429,7 +437,7 @@ def run(ctx):
         if i % 7 == 0:
             w = widths[i % len(widths)]
             for kw in ({"justify": "full"}, {"overflow": "ellipsis", "no_wrap": True}, {"soft_wrap": True}, {"justify": "right", "overflow": "crop"}, {"emoji": False, "highlight": False, "end": ""}):
-                cls, _ = observe(lambda: cons[(w, True)].print(s, markup=False, **kw))
+                cls, _ = observe(guarded(lambda: cons[(w, True)].print(s, markup=False, **kw)))
                 ctx.check(cls is None, "Console.print(markup=False)", (s, w, kw), f"print({s!r}, markup=False, **{kw}) at width {w} raised {cls}")
 
     # ---- 7. trees of built-in renderables x widths -------------------------------------------------------
@@ -465,7 +473,29 @@ def replay(ctx, case):
 
 
 MANIFEST = {
-    "text": "stub",
-    "note": "stub",
+    "text": "Lean 4 theorems (Props/C14.lean) over an executable model of the exception layer of the string entry points, "
+    "for ALL code points and for EVERY character table of the running Python (str.isspace, \\d/int() digit values, str.lower, "
+    "the int() digit limit enter as the parameter PyStr): color_parse_total (ok or ColorParseError), style_parse_total (ok or "
+    "StyleSyntaxError), normalize_total (never raises), markup_render_total (ok or MarkupError; the render loop is C04's with a "
+    "normalize that may raise, proved equal to C04's render when it does not), get_style_total (ok or MissingStyle, any theme "
+    "stack, any default), panel_total (valid padding => Panel renders and measures); old_* witnesses (by decide) show today's "
+    "Color.parse letting int()'s ValueError out of every one of these entry points (F9) and C07's table solver failing its "
+    "assertion for a table without columns and for a zero-ratio column at a width spent on the borders. "
+    "Tie: ~125k (quick) / ~2.5M (thorough) generated strings compared model-vs-rich on outcome class AND value (colour fields, "
+    "str(style), normal form, plain text + spans), the driver's Unicode tables compared with the running interpreter; direct "
+    "evaluation of the exception class at Color.parse, Style.parse, Style.normalize, markup.render, Console.get_style, "
+    "AnsiDecoder.decode, Text(), Console.print(markup on/off, widths 1..200, highlighter on/off) and of Console.render / "
+    "Measurement.get / Console.print over seeded random trees of 15 kinds of built-in renderables x widths 1..200.",
+    "note": "PARTIAL: the ANSI decoder, Text(), Console.print(markup=False) and the renderable trees are covered by direct "
+    "evaluation on real rich only (no theorem in this property): decode_total is expected from C19's model (Model/Ansi.lean, "
+    "Cfg.intRaises=false: forall st s, (decode cfg st s).2 is ok, from tablesOk), text_ctor_total / print_plain_total from C05/C02 "
+    "(inv_init, render_view, a wrap_total still missing) - Model/Text.lean and Model/ColorParse.lean both declare RichModel.Variant "
+    "and cannot be imported together; layout_total over an inductive tree of renderables is the composition builder's (C01/C09); "
+    "Columns is Props/C08 columns_repaired_never_raises. Direct evaluation only sees mutations that raise (or mis-measure). "
+    "Trusted: Lean kernel; propext/Classical.choice/Quot.sound; translator + plug-in harness/gen/py_lower.py (str.lower table; "
+    "strings containing GREEK CAPITAL SIGMA are unmodelled: final-sigma rule); the correspondence harness; lru_cache on the parsers "
+    "assumed transparent; lone surrogates excluded. With today's code the check reports F9 (rgb-component-valueerror), F10 "
+    "(ansi-sgr-int-valueerror) and two new table findings (table-no-columns-assertion, table-zero-ratio-narrow-assertion) until "
+    "pending_fixes/C14-*.diff and C19-decode-int-valueerror.diff are applied and RGB_VALUEERROR is set to 0.",
     "design_ref": "DESIGN.md section 7, C14",
 }
